@@ -159,6 +159,7 @@ class Exec:
         self.pre = self.st.copy()
         self.last_clock = None
         self.oracles = []
+        self.call_results = {}
         con = self.con
         env = {}
         self.argvals = {}
@@ -214,7 +215,9 @@ class Exec:
     def finish_normal(self, result):
         self.p.exit = ("return", result)
         con = self.con
-        c = Ctx(self.pre, self.st, self.argvals, self.self_ref, con.cls, result=result)
+        if getattr(con, "ghost_exit", None):
+            con.ghost_exit(self)
+        c = Ctx(self.pre, self.st, self.argvals, self.self_ref, con.cls, result=result, ghosts=self.call_results)
         self.frame_obligations()
         for name, term, tags, uses in con.eval_ensures(c, with_uses=True):
             self.oblige("ensures." + name, term, tags, uses=uses)
@@ -225,7 +228,7 @@ class Exec:
     def finish_raise(self, exc):
         self.p.exit = ("raise", exc.cls)
         con = self.con
-        c = Ctx(self.pre, self.st, self.argvals, self.self_ref, con.cls, exc=exc)
+        c = Ctx(self.pre, self.st, self.argvals, self.self_ref, con.cls, exc=exc, ghosts=self.call_results)
         clauses = [r for r in con.eval_raises(c) if r[0] == exc.cls]
         line = getattr(exc.node, "lineno", 0)
         if not clauses:
@@ -930,6 +933,11 @@ class Exec:
         if isinstance(e.func, ast.Attribute) and isinstance(e.func.value, ast.Name) \
                 and e.func.value.id == "log" and "log" not in env:
             return VConst(None)
+        root = e.func
+        while isinstance(root, ast.Attribute):
+            root = root.value
+        if isinstance(root, ast.Name) and root.id in ("websocket", "service") and root.id not in env:
+            return VConst(None)      # base-class constructors / methods of Twisted and Autobahn (A10)
         f = self.eval(e.func, env)
         if isinstance(f, VFunc) and f.name == "isinstance":
             return self.do_isinstance(e, env)
@@ -1091,6 +1099,7 @@ class Exec:
                     self.assume(Not(when))
             for name, term, tags in con.eval_ensures(c):
                 self.assume(term)
+            self.call_results[short] = result
             return result
         exc, name, when, posts, fields, tags, iff = rclauses[choice - 1]
         self.assume(when)
@@ -1104,6 +1113,15 @@ class Exec:
         if spec.startswith("opt") and spec[3:] in ("str", "real", "int", "bool", "json"):
             isn, t = to_opt(v, spec[3:])
             return VOpt(isn, VZ(t, spec[3:]))
+        if spec == "sm":
+            if not (isinstance(v, VNamed) and v.name == "SidedMessage"):
+                raise Unsupported("argument is not a SidedMessage at %d" % e.lineno)
+            return VNamed("SidedMessage", {k: VZ(self.scalar(v.fields[k], kd, e), kd)
+                                           for k, kd in NT_KINDS["SidedMessage"].items()})
+        if spec == "pair:json":
+            if isinstance(v, VTuple) and len(v.items) == 2:
+                return VTuple([VZ(to_term(x, "json"), "json") for x in v.items])
+            raise Unsupported("argument is not a pair at %d" % e.lineno)
         return v
 
     # loops --------------------------------------------------------------------
